@@ -1,11 +1,21 @@
 """
 Finite-domain abstract evaluation.
 
-An abstract value is a Python object drawn from a small closed domain chosen by the
-rule (e.g. the classes {NONE, NEG, ZERO, POS, CALLABLE} of a ``maxsize`` argument, or an
-order outcome {LT, EQ, GT}).  Expressions are evaluated by *table lookup* supplied by the
-rule (``ops``); anything the tables do not cover evaluates to UNKNOWN, and a branch on
-UNKNOWN is followed both ways.  No code of the analysed repository is executed.
+An abstract value is drawn from a small closed domain chosen by the rule (the classes
+{NONE, NEG, ZERO, POS, CALLABLE} of a ``maxsize`` argument, an order outcome {LT, EQ, GT},
+symbolic exception identities, the outcome class of a callback ...).  Expressions are
+evaluated by *table lookup* through hooks supplied by the rule (``ops``); whatever the
+tables do not cover is UNKNOWN and a branch on UNKNOWN is followed both ways.  The
+machine walks the CFG of the analysed function; no code of the repository is executed.
+
+Hooks on ``ops`` (all optional; return UNKNOWN when not applicable):
+  compare(op, left, right, env)          truth(value, env)
+  call(func_text, args, kwargs, node, env)   attr(value, name, node, env)
+  binop(op, left, right, env)            neg(value)
+  raises(cfg_node, env) -> exception symbol or None      (make a node raise)
+  matches(handler_type_ast, exc_symbol, env) -> bool | UNKNOWN
+  iter(cfg_node, env) / next(cfg_node, env) -> value | STOP | UNKNOWN
+  store(target_ast, value, env)          (attribute / subscript stores)
 """
 from __future__ import annotations
 
@@ -21,20 +31,20 @@ class _Unknown:
         return "UNKNOWN"
 
 
+class _Stop:
+    def __repr__(self) -> str:
+        return "STOP"
+
+
 UNKNOWN = _Unknown()
+STOP = _Stop()
+
+
+def _hook(ops: Any, name: str):
+    return getattr(ops, name, None)
 
 
 class AbsEval:
-    """Evaluate expressions over an environment of abstract values.
-
-    ``ops`` hooks (all optional, return UNKNOWN when not applicable):
-      compare(op_name, left, right)  -> bool | UNKNOWN
-      call(func_text, args)          -> value | UNKNOWN
-      truth(value)                   -> bool | UNKNOWN
-      attr(value, name)              -> value | UNKNOWN
-      binop(op_name, left, right)    -> value | UNKNOWN
-    """
-
     def __init__(self, ops: Any):
         self.ops = ops
 
@@ -45,23 +55,27 @@ class AbsEval:
             return e.value
         if isinstance(e, ast.Name):
             return env.get(e.id, UNKNOWN)
+        if isinstance(e, ast.Await):
+            return self.eval(e.value, env)
         if isinstance(e, ast.NamedExpr):
             v = self.eval(e.value, env)
             if isinstance(e.target, ast.Name):
                 env[e.target.id] = v
             return v
         if isinstance(e, ast.UnaryOp) and isinstance(e.op, ast.Not):
-            t = self.truth(self.eval(e.operand, env))
+            t = self.truth(self.eval(e.operand, env), env)
             return UNKNOWN if t is UNKNOWN else (not t)
         if isinstance(e, ast.UnaryOp) and isinstance(e.op, ast.USub):
             v = self.eval(e.operand, env)
-            hook = getattr(self.ops, "neg", None)
-            return hook(v) if hook else (-v if isinstance(v, (int, float)) and not isinstance(v, bool) else UNKNOWN)
+            hook = _hook(self.ops, "neg")
+            if hook:
+                return hook(v)
+            return -v if isinstance(v, (int, float)) and not isinstance(v, bool) else UNKNOWN
         if isinstance(e, ast.BoolOp):
             result: Any = None
             for v in e.values:
                 val = self.eval(v, env)
-                t = self.truth(val)
+                t = self.truth(val, env)
                 if t is UNKNOWN:
                     return UNKNOWN
                 result = val
@@ -71,138 +85,233 @@ class AbsEval:
                     return val
             return result
         if isinstance(e, ast.IfExp):
-            t = self.truth(self.eval(e.test, env))
+            t = self.truth(self.eval(e.test, env), env)
             if t is UNKNOWN:
                 return UNKNOWN
             return self.eval(e.body if t else e.orelse, env)
         if isinstance(e, ast.Compare):
             left = self.eval(e.left, env)
-            result = True
             for op, comp in zip(e.ops, e.comparators):
                 right = self.eval(comp, env)
-                r = self.compare(type(op).__name__, left, right)
+                r = self.compare(type(op).__name__, left, right, env)
                 if r is UNKNOWN:
                     return UNKNOWN
                 if not r:
                     return False
                 left = right
-            return result
+            return True
         if isinstance(e, ast.BinOp):
-            hook = getattr(self.ops, "binop", None)
+            hook = _hook(self.ops, "binop")
             if hook:
-                return hook(type(e.op).__name__, self.eval(e.left, env), self.eval(e.right, env))
+                return hook(type(e.op).__name__, self.eval(e.left, env), self.eval(e.right, env), env)
             return UNKNOWN
         if isinstance(e, ast.Call):
-            hook = getattr(self.ops, "call", None)
+            hook = _hook(self.ops, "call")
             if hook:
                 args = [self.eval(a, env) for a in e.args if not isinstance(a, ast.Starred)]
                 kwargs = {k.arg: self.eval(k.value, env) for k in e.keywords if k.arg}
-                return hook(norm(e.func), args, kwargs, e)
+                return hook(norm(e.func), args, kwargs, e, env)
             return UNKNOWN
         if isinstance(e, ast.Attribute):
-            hook = getattr(self.ops, "attr", None)
+            hook = _hook(self.ops, "attr")
             if hook:
-                return hook(self.eval(e.value, env), e.attr, e)
+                return hook(self.eval(e.value, env), e.attr, e, env)
             return UNKNOWN
         if isinstance(e, ast.Tuple):
-            vals = [self.eval(x, env) for x in e.elts]
-            return UNKNOWN if any(v is UNKNOWN for v in vals) else tuple(vals)
+            return tuple(self.eval(x, env) for x in e.elts)
         return UNKNOWN
 
-    def truth(self, v: Any) -> Any:
+    def truth(self, v: Any, env: Dict[str, Any]) -> Any:
         if v is UNKNOWN:
             return UNKNOWN
-        hook = getattr(self.ops, "truth", None)
+        hook = _hook(self.ops, "truth")
         if hook:
-            r = hook(v)
+            r = hook(v, env)
             if r is not UNKNOWN:
                 return r
-        if isinstance(v, (bool, int, str, tuple)) or v is None:
+        if isinstance(v, (bool, int)) or v is None:
             return bool(v)
         return UNKNOWN
 
-    def compare(self, op: str, left: Any, right: Any) -> Any:
+    def compare(self, op: str, left: Any, right: Any, env: Dict[str, Any]) -> Any:
         if left is UNKNOWN or right is UNKNOWN:
             return UNKNOWN
-        hook = getattr(self.ops, "compare", None)
+        hook = _hook(self.ops, "compare")
         if hook:
-            r = hook(op, left, right)
+            r = hook(op, left, right, env)
             if r is not UNKNOWN:
                 return r
         if op == "Is":
-            return left is right
+            return left is right or (isinstance(left, (str, tuple)) and left == right)
         if op == "IsNot":
-            return left is not right
+            return not (left is right or (isinstance(left, (str, tuple)) and left == right))
         return UNKNOWN
 
 
-def walk(cfg: CFG, ev: AbsEval, env: Dict[str, Any], start: Optional[Node] = None,
-         on_node: Optional[Callable[[Node, Dict[str, Any]], None]] = None,
-         follow_exc: Optional[Callable[[Node, Dict[str, Any]], Any]] = None,
-         limit: int = 2000) -> Iterator[Tuple[List[Node], Dict[str, Any], Node]]:
-    """Enumerate abstract executions from ``start`` (default entry): yields
-    (path, final env, terminal node) for each terminal (exit / raise_exit / return / raise).
-    Branches whose test is UNKNOWN are followed both ways.  ``follow_exc(node, env)`` may
-    return a label to take an exceptional edge at a node (for rules that model raising)."""
-    work: List[Tuple[Node, List[Node], Dict[str, Any], int]] = [(start or cfg.entry, [], dict(env), 0)]
-    produced = 0
-    while work:
-        node, path, e, steps = work.pop()
-        if steps > 400:
-            raise AnalysisError(f"{cfg.unit.short}: abstract walk does not terminate")
-        path = path + [node]
-        if on_node is not None:
-            on_node(node, e)
-        if node.kind in ("exit", "raise_exit"):
-            produced += 1
-            if produced > limit:
-                raise AnalysisError(f"{cfg.unit.short}: abstract walk exceeds {limit} executions")
-            yield path, e, node
-            continue
-        if node.kind == "store" and not node.info.get("aug"):
-            value = node.info.get("value")
-            if value is not None and not node.info.get("nested_def"):
-                v = ev.eval(value, e) if not isinstance(value, (ast.FunctionDef, ast.AsyncFunctionDef)) else UNKNOWN
-                for t in node.info.get("targets", []):
-                    if isinstance(t, ast.Name):
-                        e = dict(e)
-                        e[t.id] = v
-                    elif isinstance(t, ast.Tuple) and isinstance(v, tuple) and len(v) == len(t.elts):
-                        e = dict(e)
-                        for sub, sv in zip(t.elts, v):
-                            if isinstance(sub, ast.Name):
-                                e[sub.id] = sv
-                    elif isinstance(t, ast.Tuple):
-                        e = dict(e)
-                        for sub in t.elts:
-                            if isinstance(sub, ast.Name):
-                                e[sub.id] = UNKNOWN
-            elif value is None:
-                e = dict(e)
-                for t in node.info.get("targets", []):
-                    for sub in ast.walk(t):
-                        if isinstance(sub, ast.Name):
-                            e[sub.id] = UNKNOWN
-        if node.kind == "branch":
-            t = ev.truth(ev.eval(node.ast, e)) if "const" not in node.info else node.info["const"]
-            labels = ("t", "f") if t is UNKNOWN else (("t",) if t else ("f",))
-            for lab, s in node.succ:
-                if lab in labels:
-                    work.append((s, path, dict(e), steps + 1))
-            continue
-        if follow_exc is not None:
-            lab = follow_exc(node, e)
-            if lab:
-                for l2, s in node.succ:
-                    if l2 == lab:
-                        work.append((s, path, dict(e), steps + 1))
+class Outcome:
+    __slots__ = ("path", "env", "terminal")
+
+    def __init__(self, path: List[Node], env: Dict[str, Any], terminal: Node):
+        self.path = path
+        self.env = env
+        self.terminal = terminal
+
+    @property
+    def raised(self) -> Any:
+        return self.env.get("@exc") if self.terminal.kind == "raise_exit" else None
+
+    @property
+    def returned(self) -> Any:
+        return self.env.get("@return") if self.terminal.kind == "exit" else None
+
+
+class Machine:
+    def __init__(self, cfg: CFG, ops: Any, max_steps: int = 600, max_outcomes: int = 3000):
+        self.cfg = cfg
+        self.ops = ops
+        self.ev = AbsEval(ops)
+        self.max_steps = max_steps
+        self.max_outcomes = max_outcomes
+
+    def run(self, env: Dict[str, Any], start: Optional[Node] = None,
+            stop: Optional[Callable[[Node], bool]] = None) -> List[Outcome]:
+        out: List[Outcome] = []
+        work: List[Tuple[Node, List[Node], Dict[str, Any], int]] = [(start or self.cfg.entry, [], dict(env), 0)]
+        while work:
+            node, path, e, steps = work.pop()
+            if steps > self.max_steps:
+                raise AnalysisError(f"{self.cfg.unit.short}: abstract evaluation does not terminate")
+            path = path + [node]
+            if node.kind in ("exit", "raise_exit") or (stop is not None and stop(node) and len(path) > 1):
+                out.append(Outcome(path, e, node))
+                if len(out) > self.max_outcomes:
+                    raise AnalysisError(f"{self.cfg.unit.short}: abstract evaluation exceeds {self.max_outcomes} executions")
                 continue
-        nxt = [(lab, s) for lab, s in node.succ if lab in ("n", "stop")]
-        if node.kind == "raise":
-            nxt = [(lab, s) for lab, s in node.succ if lab == "e"]
-        if node.kind == "dispatch":
-            continue  # handled by follow_exc-aware callers
-        if node.kind == "reraise":
-            nxt = [(lab, s) for lab, s in node.succ if lab == "p"]
-        for lab, s in nxt:
-            work.append((s, path, dict(e), steps + 1))
+            for nxt, e2 in self.step(node, e):
+                work.append((nxt, path, e2, steps + 1))
+        return out
+
+    # ------------------------------------------------------------------ one step
+    def step(self, node: Node, e: Dict[str, Any]) -> List[Tuple[Node, Dict[str, Any]]]:
+        k = node.kind
+        raises = _hook(self.ops, "raises")
+        if raises is not None and k in ("await", "call", "attr", "sub", "op", "pull", "yield", "enter", "exit_cm", "snext"):
+            sym = raises(node, e)
+            if sym is not None:
+                e = dict(e)
+                e["@exc"] = sym
+                return [(s, e) for lab, s in node.succ if lab == "e"]
+        if k == "store":
+            e = dict(e)
+            self._store(node, e)
+            return self._follow(node, e, ("n",))
+        if k == "branch":
+            t = node.info["const"] if "const" in node.info else self.ev.truth(self.ev.eval(node.ast, e), e)
+            labels = ("t", "f") if t is UNKNOWN else (("t",) if t else ("f",))
+            return [(s, dict(e)) for lab, s in node.succ if lab in labels]
+        if k == "raise":
+            e = dict(e)
+            stmt = node.ast
+            if isinstance(stmt, ast.Raise) and stmt.exc is not None:
+                e["@exc"] = self.ev.eval(stmt.exc, e)
+                if stmt.cause is not None:
+                    hook = _hook(self.ops, "set_cause")
+                    if hook:
+                        hook(e["@exc"], self.ev.eval(stmt.cause, e), e)
+            elif isinstance(stmt, ast.Assert):
+                e["@exc"] = ("new", "AssertionError")
+            return self._follow(node, e, ("e",))
+        if k == "dispatch":
+            return self._dispatch(node, e)
+        if k == "handler":
+            e = dict(e)
+            name = node.info.get("name")
+            if name:
+                e[name] = e.get("@exc", UNKNOWN)
+            e["@handling"] = e.get("@exc", UNKNOWN)
+            return self._follow(node, e, ("n",))
+        if k == "reraise":
+            return self._follow(node, e, ("p",))
+        if k == "return":
+            e = dict(e)
+            e["@return"] = self.ev.eval(node.info.get("value"), e)
+            return self._follow(node, e, ("n",))
+        if k in ("siter", "aiter"):
+            hook = _hook(self.ops, "iter")
+            if hook:
+                e = dict(e)
+                hook(node, e)
+            return self._follow(node, e, ("n",))
+        if k in ("snext", "pull"):
+            hook = _hook(self.ops, "next")
+            v = hook(node, e) if hook else UNKNOWN
+            if v is STOP:
+                return self._follow(node, e, ("stop",))
+            if v is UNKNOWN:
+                e1 = dict(e)
+                e1["@next"] = UNKNOWN
+                return self._follow(node, e1, ("n",)) + self._follow(node, dict(e), ("stop",))
+            e = dict(e)
+            e["@next"] = v
+            return self._follow(node, e, ("n",))
+        if k in ("await", "call", "yield"):
+            hook = _hook(self.ops, "visit")
+            if hook:
+                e = dict(e)
+                hook(node, e, self.ev)
+        return self._follow(node, e, ("n", "stop"))
+
+    def _follow(self, node: Node, e: Dict[str, Any], labels: Tuple[str, ...]) -> List[Tuple[Node, Dict[str, Any]]]:
+        return [(s, e) for lab, s in node.succ if lab in labels]
+
+    def _dispatch(self, node: Node, e: Dict[str, Any]) -> List[Tuple[Node, Dict[str, Any]]]:
+        matches = _hook(self.ops, "matches")
+        out: List[Tuple[Node, Dict[str, Any]]] = []
+        for lab, h in node.succ:
+            if lab != "h":
+                continue
+            m = matches(h.info.get("type"), e.get("@exc", UNKNOWN), e) if matches else UNKNOWN
+            if m is True:
+                out.append((h, e))
+                return out
+            if m is UNKNOWN:
+                out.append((h, dict(e)))
+        out.extend(self._follow(node, e, ("e",)))
+        return out
+
+    def _store(self, node: Node, e: Dict[str, Any]) -> None:
+        info = node.info
+        if info.get("nested_def"):
+            return
+        if info.get("aug"):
+            hook = _hook(self.ops, "augstore")
+            if hook:
+                hook(node, e, self.ev)
+            else:
+                for t in info.get("targets", []):
+                    if isinstance(t, ast.Name):
+                        e[t.id] = UNKNOWN
+            return
+        if "source" in info:
+            v = e.get("@next", UNKNOWN)
+        elif "source_enter" in info:
+            v = UNKNOWN
+        else:
+            v = self.ev.eval(info.get("value"), e)
+        for t in info.get("targets", []):
+            self._assign(t, v, e)
+
+    def _assign(self, t: ast.AST, v: Any, e: Dict[str, Any]) -> None:
+        if isinstance(t, ast.Name):
+            e[t.id] = v
+        elif isinstance(t, (ast.Tuple, ast.List)):
+            if isinstance(v, tuple) and len(v) == len(t.elts):
+                for sub, sv in zip(t.elts, v):
+                    self._assign(sub, sv, e)
+            else:
+                for sub in t.elts:
+                    self._assign(sub, UNKNOWN, e)
+        else:
+            hook = _hook(self.ops, "store")
+            if hook:
+                hook(t, v, e, self.ev)
